@@ -214,6 +214,79 @@ func sleepUntil(t time.Time) {
 	}
 }
 
+// runLockOrder: Ctrl+O typed while un-muted shell output is being written
+// continuously.  The key handler runs with the terminal's own lock held and
+// then needs the shell's write lock, while the output path takes them in the
+// opposite order; the verif pause point stretches the window between the two
+// acquisitions (where the scheduler may preempt anyway).  The announcement
+// must still appear and the mute must still end.
+func runLockOrder(r *mon.Run, bin string, idx int) {
+	rng := r.Rng("lockorder", idx)
+	home := filepath.Join(r.Work, fmt.Sprintf("lo%d", idx))
+	pause := []string{"2ms", "20ms", "100ms"}[rng.IntN(3)]
+	s, err := crs.StartEnv(bin, home, []string{"VERIF_OPSHELL_PAUSE=ctrl-o=" + pause}, "-listen-address", "127.0.0.1:0", "-tls-certificate-cache", "")
+	if err != nil {
+		r.Inconclusive("binary did not start: " + err.Error())
+		return
+	}
+	defer s.Close()
+	z := &sess{r: r, idx: 1000 + idx, s: s, t0: time.Now()}
+	io, err := crs.OpenIO(s.Addr)
+	if err != nil {
+		r.Inconclusive(err.Error())
+		return
+	}
+	defer io.Close()
+	z.in, z.out = io.In, io.Out
+	if _, ok := s.Wait(`Shell is ready`, 0, crs.Bound); !ok {
+		r.Inconclusive("fake shell did not attach")
+		return
+	}
+	stop := make(chan struct{})
+	flooded := make(chan int, 1)
+	go func() {
+		n := 0
+		for {
+			select {
+			case <-stop:
+				flooded <- n
+				return
+			default:
+			}
+			if z.out.Send("flood-flood-flood-flood-flood-flood-flood\n") != nil {
+				flooded <- n
+				return
+			}
+			n++
+		}
+	}()
+	time.Sleep(time.Duration(50+rng.IntN(100)) * time.Millisecond)
+	from := s.P.CleanLen()
+	s.Ctrl('O')
+	z.ev("Ctrl+O typed during an un-muted flood (pause point %s)", pause)
+	_, ok := s.P.WaitFor(muteRe, from, ProgressBound)
+	close(stop)
+	n := <-flooded
+	if !ok {
+		z.viol("ctrl-o-not-announced", fmt.Sprintf("Ctrl+O typed while shell output was being written got no answer within %s (%d chunks sent meanwhile): the terminal is stuck", ProgressBound, n))
+	} else {
+		// the mute must end after calm and output must come back
+		if _, ok := s.Wait(`Unmuting`, from, Pause+ProgressBound); !ok {
+			z.viol("mute-does-not-end", "no un-muting announcement after the flood stopped")
+		} else {
+			z.out.Send("AFTER-LOCKORDER;")
+			if _, ok := s.Wait(`AFTER-LOCKORDER;`, from, ProgressBound); !ok {
+				z.viol("output-after-unmute-not-displayed", "output sent after the un-muting announcement was not displayed")
+			}
+		}
+	}
+	r.Eval(1)
+	r.Count("lockorder_sessions", 1)
+	r.Count("lockorder_chunks_during_ctrl_o", int64(n))
+	r.Distinct(fmt.Sprintf("lockorder|%s|%d", pause, idx))
+	s.Quit()
+}
+
 func runSession(r *mon.Run, bin string, idx int, withCtrlO bool) {
 	rng := r.Rng("session", idx)
 	home := filepath.Join(r.Work, fmt.Sprintf("s%d", idx))
@@ -453,6 +526,13 @@ func Run(r *mon.Run) {
 			runSession(r, bin, i, i%4 != 3)
 		}
 	})
+	nlo := r.N(6, 24)
+	mon.Parallel(nlo, nlo, func(i int) {
+		if r.Want("lockorder", i) {
+			runLockOrder(r, bin, i)
+		}
+	})
+	r.Floor("lockorder_sessions", int64(nlo))
 	r.Floor("sessions", int64(n))
 	r.Floor("mute_periods", int64(n))
 	r.Floor("tokens_suppressed", 20)
